@@ -808,7 +808,51 @@ def gen_gcwindow(rng, mode):
     return g.finish()
 
 
+def gen_c06_dense(rng, mode):
+    """Dense primary-key universe (all strings over a 2-letter alphabet up to length 4): every structural case
+    of the index tree (values on inner nodes, forks below them, prefix splits) arises; before each transaction
+    Get/Prefix/List watches on present and absent keys from a fresh snapshot; 1-3 writes per transaction."""
+    import itertools
+    g = DBGen(rng, mode)
+    g.add(op="config", nilempty=False)
+    t = g.newtable()
+    alpha = rng.choice([[1, 2], [1, 2], [0, 255], [97, 98]])
+    universe = [[]] + [list(x) for n in range(1, 5) for x in itertools.product(alpha, repeat=n)]
+    g.watch_budget = 600
+
+    def obj(pk):
+        return dict(pk=pk, val=rng.randint(1, 9), hasU=rng.random() < 0.3, u=pk + [7], tags=[], pfx=[], hasUp=False, upfx=[])
+
+    tx = g.begin([t])
+    for pk in rng.sample(universe, rng.randint(3, 10)):
+        g.add(op="insert", tx=tx, t=t, obj=obj(pk), guard=0, gsym="", w=0)
+    g.commit(tx)
+    for _ in range(rng.randint(3, 6)):
+        s = g.snap()
+        src = g.snap_src(s)
+        for pk in rng.sample(universe, rng.randint(4, 8)):
+            r = rng.random()
+            if r < 0.4:
+                g.q(src, t, "id", "get", pk, watch=True)
+            elif r < 0.9:
+                g.q(src, t, "id", "prefix", pk, watch=True)
+            else:
+                g.q(src, t, "u", "prefix", pk, watch=True)
+        tx = g.begin([t])
+        for _ in range(rng.randint(1, 3)):
+            pk = rng.choice(universe)
+            g.add(op="insert" if rng.random() < 0.55 else "delete", tx=tx, t=t, obj=obj(pk), guard=0, gsym="", w=0)
+        if rng.random() < 0.85:
+            g.commit(tx)
+            g.chans()
+        else:
+            g.abort(tx)
+            g.chans(ctx="postabort")
+    return g.finish()
+
+
 MODES = {
+    "c06dense": gen_c06_dense,
     "gcwindow": gen_gcwindow,
     "c06inner": gen_c06_inner,
     "lpmshared": gen_lpm_shared,
